@@ -244,7 +244,88 @@ def judge(rec, design, meta, sample=False, reuse=None):
     return o
 
 
+def invented_name_probes(rec):
+    """The flattened names of a bundle port's leaves are its documented ones whatever else the module holds that elaboration has to
+    invent names for: implicit nets of port references, nameless no-connects, elements of pairs and arrays, implicit bundle nets."""
+    import hdl21 as h
+
+    def ports_of(top):
+        pkg = h.to_proto(top)
+        m = pkg.modules[-1]
+        return [p.signal for p in m.ports]
+
+    def build(variant, uid):
+        B = h.Bundle(name=f"NpB{uid}")
+        B.add(h.Input(), name="b_c")
+        B.add(h.Output(), name="d")
+        Leaf = h.Module(name=f"NpLeaf{uid}")
+        Leaf.add(h.Inout(), name="c")
+        m = h.Module(name=f"NpM{uid}")
+        want = ["a_b_c", "a_d"]
+        if variant in ("baseline", "portref", "noconn", "named-noconn", "array-element"):
+            m.add(B(port=True), name="a")
+        if variant == "baseline":
+            m.n = h.Signal()
+            m.a_b = Leaf(c=m.n)
+            m.k = Leaf(c=m.n)
+        elif variant == "portref":
+            m.a_b = Leaf()
+            m.k = Leaf(c=m.a_b.c)
+        elif variant == "noconn":
+            m.a_b = Leaf(c=h.NoConn())
+        elif variant == "named-noconn":
+            m.a_b = Leaf(c=h.NoConn(name="zz"))
+        elif variant == "array-element":
+            B4 = h.Bundle(name=f"NpB4{uid}")
+            B4.add(h.Input(), name="b_0_c")
+            m.add(B4(port=True), name="q")
+            m.q_b = 2 * Leaf()
+            m.k = Leaf(c=m.n) if False else Leaf(c=h.NoConn())
+            m.j = 2 * Leaf(c=m.q_b.c)
+            want = ["a_b_c", "a_d", "q_b_0_c"]
+        elif variant == "bundle-portref":
+            Q = h.Bundle(name=f"NpQ{uid}")
+            Q.add(h.Input(), name="c")
+            B3 = h.Bundle(name=f"NpB3{uid}")
+            B3.add(h.Input(), name="b_q_c")
+            LeafQ = h.Module(name=f"NpLeafQ{uid}")
+            LeafQ.add(Q(port=True), name="q")
+            m.add(B3(port=True), name="a")
+            m.a_b = LeafQ()
+            m.k = LeafQ(q=m.a_b.q)
+            want = ["a_b_q_c"]
+        elif variant == "pair":
+            B2 = h.Bundle(name=f"NpB2{uid}")
+            B2.add(h.Input(), name="b_p")
+            m.add(B2(port=True), name="a")
+            m.s = h.Signal()
+            m.a_b = h.Pair(Leaf)(c=m.s)
+            want = ["a_b_p"]
+        return m, want
+
+    for k, variant in enumerate(("baseline", "portref", "noconn", "named-noconn", "array-element", "bundle-portref", "pair")):
+        for order in ("bundle-first",):
+            rec.count("invented-names.probed")
+            case = {"kind": "invented-name", "variant": variant}
+            rec.case(key=f"invented-name:{variant}", nontrivial=True, sample=case)
+            m, want = build(variant, f"{k}_{next(_np_uid)}")
+            try:
+                ports = ports_of(m)
+            except Exception as e:
+                rec.count("invented-names.rejected")
+                continue
+            rec.count("invented-names.compared")
+            if sorted(ports) != sorted(want):
+                rec.violation("flattened-port-name-displaced", f"[{variant}] a bundle port's leaves are exported as {sorted(ports)}, their documented names are "
+                                                                f"{sorted(want)}: a name invented for an internal net or instance took one", case=case, variant=variant)
+
+
+_np_uid = itertools.count()
+
+
 def run(ctx, rec):
+    if ctx.shard == 0:
+        invented_name_probes(rec)
     rng = ctx.rng("c10")
     n = 3000 if ctx.quick else 16000
     for k in range(n):
@@ -265,6 +346,9 @@ def shards(ctx):
 
 
 def replay(ctx, rec, case):
+    if case.get("kind") == "invented-name":
+        invented_name_probes(rec)
+        return
     o = judge(rec, case["design"], case["meta"], sample=True)
     if o is not None and o.built is not None:
         judge(rec, case["design"], case["meta"], reuse=o.built)
